@@ -41,7 +41,9 @@ LEVEL_TEXT = (
     "satisfying the stated no-conflict hypotheses (Closed under the global context): C09_upload_spec (directory upload "
     "= graft at destination[/source.name], nothing else changed, for the code /repo has now), C09_upload_file_spec, "
     "C09_make_directory_spec, C09_download_spec (exact), C09_list_recursive_exact (permutation of the subtree's entries), "
-    "C09_remove_spec (exact), C09_fuel_enough. C09_source_obligations ties the model's upload form and the path plumbing "
+    "C09_remove_spec (exact), C09_fuel_enough; C09_session_no_hidden_state: a session (any sequence of cd / mkdir / upload / "
+    "remove on one client) is the fold of the single operations over (server-side cwd, remote tree), each operation's effect "
+    "being the documented function of that pair and its arguments whatever preceded it. C09_source_obligations ties the model's upload form and the path plumbing "
     "to client.py (regenerated each run; the pre-fix form of upload computes false and any third form fails closed). "
     "C09_hist_* are historical statements about the pre-fix upload (what a revert would do). The model is hand-written; "
     "its tie to the code is a bounded-exhaustive wire-level correspondence (all tree shapes to depth 3 / fan-out 2 x "
